@@ -10,6 +10,7 @@ import (
 // string of 0..N bytes - a value or an error, never a panic. (The JSON form goes
 // through encoding/json and is outside: DESIGN 7.)
 func VP_C08_chat_nbt() {
+	vp.NoSpin(300) // bounded input: no loop of the decoder legitimately runs 300 times
 	n := vp.Choice(8 + 2*vp.Tier())
 	b := vp.Bytes(n)
 	vp.SizeBound(n + 2)
